@@ -56,7 +56,7 @@ fn hostile_world(rng: &mut Rng) -> (World, &'static str) {
             label = "long-chain";
             // memory use is quadratic in the chain length (known finding); the long
             // variant deterministically exceeds the address-space limit
-            let d = if rng.chance(1, 16) { 1300 + rng.usize(200) } else { 50 + rng.usize(450) };
+            let d = if rng.chance(1, 16) { 900 + rng.usize(100) } else { 50 + rng.usize(350) };
             let mut s = String::from("pragma circom 2.0.0;\ntemplate T() {\n  signal input a;\n  signal output b;\n  b <== a");
             let ops = [" + ", " * ", " - "];
             for i in 0..d {
